@@ -70,7 +70,9 @@ def gen_history(cat, prop, seed, h, tier):
         for f in list(by_f):
             ids = by_f[f]
             if len(ids) > per:
-                by_f[f] = sorted(rng.sample(ids, per))
+                must = [i for i in ids if ent[i].get("always")]
+                rest = [i for i in ids if not ent[i].get("always")]
+                by_f[f] = sorted(must + rng.sample(rest, max(0, per - len(must))))
     ids_all = [i for f in chosen for i in by_f[f]]
     L = rng.randint(30, 90) if tier == "quick" else rng.randint(60, 400)
     heavy_left = 6 if tier == "quick" else 40
@@ -90,6 +92,7 @@ def gen_history(cat, prop, seed, h, tier):
     # every chosen entry at least once, in seeded order, then biased traffic
     first = list(ids_all)
     rng.shuffle(first)
+    first.sort(key=lambda i: 0 if ent[i].get("always") else 1)
     for i in first[: max(10, L // 2)]:
         push_call(i)
     while len(ops) < L:
